@@ -100,9 +100,10 @@ func (f *FaultController) VerifyReportHashValidty() error {
 	for i := 0; i < length; i++ {
 		vote := f.Faults[i].Vote
 		// if vote not contradict verdict, should not be in faults
-		inGood := goodMap[f.Faults[i].Target] && !badMap[f.Faults[i].Target]
-		inBad := !goodMap[f.Faults[i].Target] && badMap[f.Faults[i].Target]
-		if (vote && inGood) || (!vote && inBad) {
+		// GP 10.6: r in psi'_b <=> r not in psi'_g <=> v
+		inGood := goodMap[f.Faults[i].Target]
+		inBad := badMap[f.Faults[i].Target]
+		if inGood == inBad || vote != inBad {
 			return errors.New("fault_verdict_wrong")
 		}
 	}
